@@ -88,14 +88,14 @@ func (fc *FnCtx) baseConst(st *State, comp, sort string) string {
 	fc.vc.declare(n, sort)
 	if comp == "alloc" {
 		if st.epoch == 0 {
-			fc.vc.assert("(>= " + n + " 0)")
+			fc.vc.assertGlobal("(>= " + n + " 0)")
 		}
 		return n
 	}
 	if st.epoch == 0 {
 		a := baseName("alloc", 0)
 		fc.vc.declare(a, "Int")
-		fc.vc.assert(fc.closure(n, comp, a))
+		fc.vc.assertGlobal(fc.closure(n, comp, a))
 	}
 	return n
 }
